@@ -73,3 +73,17 @@ Definition chk_fields (c : search_case) : bool :=
              same_bits (f_xl G l p) (getf xl np l p) && same_bits (f_xp G l p) (getf xp np l p) &&
              same_bits (f_yl G l p) (getf yl np l p) && same_bits (f_yp G l p) (getf yp np l p)) idx.
 Definition chk_indices_traced (c : search_case) : bool := chk_indices c && chk_fields c.
+
+(* legacy stacking: full-source arrays, one band, the crops (y0, y1, x0, x1) co-located with the target block (rows, cols) *)
+Definition stack_case : Type :=
+  (Z * Z * Z) * (list float * list float * list float * list float * list float * list float)
+  * (list float * list float) * list float * list (Z * Z * Z * Z) * (Z * Z * Z * Z) * list float.
+Definition run_stack (c : stack_case) : list (option float) :=
+  let '(dims, arrs, (dx, dy), data, crops, blk, _) := c in
+  let '(nl, np, W) := dims in
+  let '(r0, r1, c0, c1) := blk in
+  let dst := fun i j => (getf dx W i j, getf dy W i j) in
+  concat (legacy_stack F64 (mkF np arrs) (getf data np) dst (mk_slice r0 r1) (mk_slice c0 c1)
+                       (map (fun q => let '(a0, a1, b0, b1) := q in (mk_slice a0 a1, mk_slice b0 b1)) crops)).
+Definition chk_stack (c : stack_case) : bool :=
+  let '(_, _, _, _, _, _, e) := c in list_eqb cmp_val (run_stack c) e.
